@@ -5,7 +5,8 @@ from vlib import Result, log
 from arena import Arena
 import c10
 
-THEOREMS = ["C07_closed", "C07_operation_refs", "C07_minimal", "C07_selection_monotone", "C07_fuel_suffices", "C07_nonvacuous"]
+THEOREMS = ["C07_closed", "C07_operation_refs", "C07_minimal", "C07_selection_monotone", "C07_fuel_suffices", "C07_nonvacuous",
+            "C07_dedup_removes_exactly", "C07_dedup_canonical_kept", "C07_dedup_unordered_removal_refuted", "C07_dedup_nonvacuous", "C07_dedup_shape_from_source"]
 TARGETS = ["Props/C07.v", "Extract/C07.v"]
 
 
@@ -278,7 +279,10 @@ def main(tier, seed, replay=None):
     res = Result("C07", tier, seed)
     vlib.build_repo()
     vlib.build_vtool()
-    coq_ok, out = vlib.standard_coq_obligations(res, TARGETS, THEOREMS, expect_closed=5)
+    rep = vlib.translate()
+    r = rep.get("Dedup.v", {"ok": False, "error": "missing"})
+    res.oblige("translator: Gen/Dedup.v regenerated from current source (response_enum.rs has the modelled shape)", r.get("ok"), r.get("error", ""))
+    coq_ok, out = vlib.standard_coq_obligations(res, TARGETS, THEOREMS, expect_closed=8)
     exe = vlib.ocaml_build("c07")
     res.oblige("extracted model (collect, seeds, reach) builds", exe is not None)
     rng = random.Random(seed * 733 + 7)
@@ -380,6 +384,38 @@ def main(tier, seed, replay=None):
             for x in sorted(R - dset):
                 reach_not_emitted[x] = reach_not_emitted.get(x, 0) + 1
     res.oblige(f"model: the saturation closed within its fuel on all {len(cases)} cases (hypothesis of C07_closed)", n_unclosed_model == 0, f"{n_unclosed_model} cases")
+    # ---- merged response enums: the emitted groups (operations returning one enum) against the model's canonical choice
+    cq, cidx = [], []
+    for i, c in enumerate(cases):
+        if c["pos"] != "twins" or results[i][0] != 0:
+            continue
+        try:
+            ctext = open(os.path.join(results[i][2], "client.rs")).read()
+        except OSError:
+            continue
+        groups = {}
+        for m in re.finditer(r"request:\s*(\w+)Request\s*,?\s*\)\s*->\s*anyhow::Result<\s*(\w+)\s*>", ctext):
+            groups.setdefault(m.group(2), []).append(m.group(1) + "Response")
+        for ret, members in sorted(groups.items()):
+            cq.append("canon " + " ".join(f"{k}:{n}" for k, n in enumerate(members)))
+            cidx.append((i, ret, members))
+    canon_dis, n_groups = [], 0
+    if exe and cq:
+        for (i, ret, members), r in zip(cidx, vlib.run_driver(exe, cq)):
+            n_groups += 1
+            mm = re.match(r"C (\S+) // ([\d ]*)$", r)
+            if not mm:
+                canon_dis.append(f"{cases[i]['name']}: model answer {r!r}")
+                continue
+            dropped = {members[int(x)] for x in mm.group(2).split()}
+            dset = set(defs_and_mentions(dumps[i])[0]) if "error" not in dumps[i] else set()
+            if mm.group(1) != ret:
+                canon_dis.append(f"{cases[i]['name']}: operations {members} return {ret}, the model's canonical member is {mm.group(1)}")
+            elif ret not in dset or (dropped & dset):
+                canon_dis.append(f"{cases[i]['name']}: group {members}: emitted {sorted(set(members) & dset)}, model keeps {ret} and drops {sorted(dropped)}")
+    res.oblige(f"correspondence: merged response enums (which member of a group survives, which are dropped) = extracted model (canonical / doomed) on {n_groups} groups", not canon_dis, "; ".join(canon_dis[:3]))
+    for msg in canon_dis[:3]:
+        viol.append((cases[[x for x in range(len(cases)) if cases[x]['name'] == msg.split(':')[0]][0]], "response-enum merge: " + msg, None))
     # ---- rustc on whole modules (types.rs + client.rs)
     good = [i for i in range(len(cases)) if results[i][0] == 0]
     pick = good if tier != "quick" else sorted(rng.sample(good, min(len(good), 70)))
@@ -398,12 +434,13 @@ def main(tier, seed, replay=None):
     res.counts.update({"evaluations": len(cases), "matrix_cases": n_matrix, "distinct_nontrivial": n_closed, "comparisons": n_closed + n_min,
                        "traces_validated_against_impl": n_closed, "exhaustive": True, "emitted_type_items": n_emitted,
                        "generator_failures_on_grammar_specs": gen_fail, "reachable_in_model_but_no_item": reach_not_emitted,
-                       "rustc_checked_modules": len(pick),
+                       "rustc_checked_modules": len(pick), "merged_response_groups_compared": n_groups,
                        "rule": "exhaustive matrix {reference position: 17 schema-level positions (incl. nullable / untyped array items), discriminator mapping, an inline twin of a component only another operation uses, one to three groups of operations with identical response sets (merged response enums) next to path-item parameter structs, 16 operation-level positions incl. binary / text media types on non-success and default responses; the unselected operation's path item has parameters of its own} x {12 kinds of referenced schema} x {default, --all-schemas, --only, --exclude} (inapplicable pairs skipped), plus feature-grammar specs; client-mod output read back with syn: every type name mentioned by a struct field / enum variant / alias is defined exactly once in types.rs or is external; with default scoping every emitted component-schema type lies in the extracted model's expanded set; rustc name resolution (E0412/E0425/E0428/E0432/E0433) on whole modules (sample in quick, all in thorough)"})
     for c in cases[:4]:
         res.sample({"case": c["name"], "flags": c["flags"]})
     res.cov["trusted_base"] = vlib.COMMON_TRUSTED + [
         "coq/Model/Boxing.v: hand model of collect / collect_refs_from_operation / reachable (petgraph Dfs by contract: visits exactly the nodes reachable from the start)",
+        "coq/Model/Dedup.v: hand model of ResponseEnumDeduplicator (signature, canonical member, removal by descending index); Vec::remove by contract",
         "lib/c07.py model_line / op_schemas and lib/c10.py ast_of_spec: JSON -> model input (which positions of an operation are looked at)",
         "tools/vtool dump (syn) for definitions and mentions; rustc name resolution in the arena"]
     res.assumptions = ["closure is proved for the model's expanded set under the hypothesis that mentions follow recorded dependencies and operation-level mentions are seeds; both hypotheses are what the matrix observes on the emitted code (a reference position the collector does not look at shows up as an undefined type)",
